@@ -36,6 +36,13 @@ reg("C18","recon","exploration","runtime invariant over simulated multi-cycle hi
     "random histories of edits/chmods on a preserving and a non-preserving endpoint, all modes and both role assignments: no plan changes the preserving side's bit where its content is unmodified or equal to the incoming content; the propagated tree takes bits only from matching content.",
     "endpoints are simulated (ideal transitions, non-preserving snapshot reports executable=false)")
 
+reg("C14","ignore","exploration","reference-model comparison (independent last-match-wins matcher) + real scans watched by an inotify sensor",
+    "the real Mutagen-style Ignorer vs an independent reference over 2*10^5 (quick) random (pattern list, path, dir flag) cases from a restricted glob grammar; real scans of random trees with those patterns: an ignored directory is one untracked entry, nothing beneath it is in the snapshot or digest cache, inotify records no open/access inside ignored directories (control directories must record them), VCS directories untracked at every depth.",
+    "the reference matcher is the harness's own for the unambiguous sub-grammar; one disagreement class rooted in the pinned doublestar dependency is a recorded known finding (negated classes matching '/')")
+reg("C15","ignore","exploration","reference-model comparison against a frozen copy of the upstream moby pattern matcher + Docker's directory-walk rule",
+    "random .dockerignore lists x random trees: real dockerignore.NewIgnorer -> core.Scan -> ReifyPhantomDirectories (nil and populated ancestor) vs the frozen upstream matcher with the build-context walk; every disagreeing path is classified with a second model (mutagen's documented algorithm): equal to it = the recorded known finding (no parent inheritance), different = new violation.",
+    "frozen copy of patternmatcher.go (Apache-2.0) under internal/ignorex; pattern grammar restricted to what both sides define (no backslashes, comments)")
+
 NOT_APPLICABLE = {}
 def main():
     props=[json.loads(l)["id"] for l in open("/verif/properties.jsonl")]
